@@ -186,8 +186,10 @@ func runC16(c *Ctx) {
 			for _, ins := range b.Instrs {
 				if bo, ok := ins.(*ssa.BinOp); ok && bo.Op.String() == "==" {
 					x, y := ff.tr.term(nil, bo.X, 0), ff.tr.term(nil, bo.Y, 0)
-					if mustRe(`^`+lg+`\.Topics\[\(phi:rangeindex~2 \+ 1\)\]$`).MatchString(x) && mustRe(`^\[\]\[\]Hash#0\[\(phi:rangeindex~2 \+ 1\)\]\[\(phi:rangeindex~3 \+ 1\)\]$`).MatchString(y) {
-						okPos = true
+					for _, pr := range [][2]string{{x, y}, {y, x}} { // either operand order
+						if mustRe(`^`+lg+`\.Topics\[\(phi:rangeindex~2 \+ 1\)\]$`).MatchString(pr[0]) && mustRe(`^\[\]\[\]Hash#0\[\(phi:rangeindex~2 \+ 1\)\]\[\(phi:rangeindex~3 \+ 1\)\]$`).MatchString(pr[1]) {
+							okPos = true
+						}
 					}
 				}
 			}
@@ -198,7 +200,7 @@ func runC16(c *Ctx) {
 			for _, ins := range b.Instrs {
 				if p, ok := ins.(*ssa.Phi); ok && isBoolType(p.Type()) {
 					for _, e := range p.Edges {
-						if ff.tr.term(nil, e, 0) == "(len([][]Hash#0[(phi:rangeindex~2 + 1)]) == 0)" {
+						if t := ff.tr.term(nil, e, 0); t == "(len([][]Hash#0[(phi:rangeindex~2 + 1)]) == 0)" || t == "(0 == len([][]Hash#0[(phi:rangeindex~2 + 1)]))" {
 							okWild = true
 						}
 					}
@@ -215,9 +217,10 @@ func runC16(c *Ctx) {
 		okW2 := false
 		for _, b := range bf.Blocks {
 			for _, ins := range b.Instrs {
-				if p, ok := ins.(*ssa.Phi); ok && strings.HasPrefix(p.Comment, "included") {
+				if p, ok := ins.(*ssa.Phi); ok && isBoolType(p.Type()) {
 					for _, e := range p.Edges {
-						if strings.HasPrefix(fb.tr.term(nil, e, 0), "(len([][]Hash#0[") && strings.HasSuffix(fb.tr.term(nil, e, 0), ") == 0)") {
+						t := fb.tr.term(nil, e, 0)
+						if strings.HasPrefix(t, "(len([][]Hash#0[") && strings.HasSuffix(t, ") == 0)") || strings.HasPrefix(t, "(0 == len([][]Hash#0[") {
 							okW2 = true
 						}
 					}
